@@ -355,7 +355,7 @@ def render : Change → Bytes
 /-! ### view: the faithful decoding -/
 
 /-- value with the quote doubling undone. For a bit string the faithful value is its digits
-(the literal is `B'…'`, a quoted literal); the unchanged decoder returns `'…` instead (F4). -/
+(the literal is `B'…'`, a quoted literal); before the repair of F4 the decoder returned `'…` instead. -/
 def litValue : Literal → Bytes
   | .null => bNull
   | .toast => bToast
@@ -386,28 +386,6 @@ def view : Change → Res
   | .update r old new => viewDml (renderRel r) bUPDATE old new
   | .delete r old => viewDml (renderRel r) bDELETE none old
   | .truncate rs _ _ => { relation := joinRels rs, operation := bTRUNCATE }
-
-/-- what the UNCHANGED decoder returns for a bit string (finding F4): value `'` + digits, quoted -/
-def litValueF4 : Literal → Bytes
-  | .bits s => 39 :: s
-  | v => litValue v
-
-def cvOfF4 (c : Col) : Bytes × CV :=
-  (quoteIdent c.name, { value := litValueF4 c.val, type := renderType c.type, quoted := litQuoted c.val })
-
-def viewColsF4 : Option (List Col) → List (Bytes × CV)
-  | none => []
-  | some cs => cs.map cvOfF4
-
-def viewDmlF4 (rel op : Bytes) (old new : Option (List Col)) : Res :=
-  { relation := rel, operation := op, noTuple := new.isNone, cols := viewColsF4 new, old := viewColsF4 old }
-
-/-- `view` with F4 applied to every bit-string column (used by the monitor to attribute a deviation) -/
-def viewF4 : Change → Res
-  | .insert r new => viewDmlF4 (renderRel r) bINSERT none new
-  | .update r old new => viewDmlF4 (renderRel r) bUPDATE old new
-  | .delete r old => viewDmlF4 (renderRel r) bDELETE none old
-  | m => view m
 
 /-! ### well-formedness (decidable) -/
 
@@ -445,10 +423,6 @@ def tupWf : Option (List Col) → Bool
   | none => true
   | some cs => cs.all Col.wf && nodupNames cs && !cs.isEmpty
 
-def hasBits : Option (List Col) → Bool
-  | none => false
-  | some cs => cs.any fun c => c.val.isBits
-
 /-- No restriction on identifiers (any bytes), text values (any bytes), xids. Restrictions:
 bare values contain no NUL / space / `'`; bit strings consist of `0`/`1`; built-in type spellings contain no `]`, `[`, `"`;
 printed column names distinct inside a tuple; a printed tuple is not empty. -/
@@ -460,13 +434,6 @@ def wf : Change → Bool
   | .delete _ old => tupWf old
   | .truncate _ _ _ => true
 
-def noBits : Change → Bool
-  | .insert _ new => !hasBits new
-  | .update _ old new => !hasBits old && !hasBits new
-  | .delete _ old => !hasBits old
-  | _ => true
-
 abbrev WF (m : Change) : Prop := wf m = true
-abbrev NoBits (m : Change) : Prop := noBits m = true
 
 end PgBifrost.TestDecoding
